@@ -14,6 +14,7 @@ from pyab_experiment.data_structures.syntax_tree import (
 )
 from pyab_experiment.language.lexer import ExperimentLexer
 from pyab_experiment.sly import Parser
+from pyab_experiment.sly.yacc import YaccError
 
 
 class ExperimentParser(Parser):
@@ -43,6 +44,13 @@ class ExperimentParser(Parser):
             salt=p.opt_header_salt,
             conditions=p.conditional,
         )
+
+    def error(self, token):
+        """Reject the text on the first syntax error (no panic-mode recovery)"""
+        if token:
+            lineno = getattr(token, "lineno", 0)
+            raise YaccError(f"Syntax error at line {lineno}, token={token.type}")
+        raise YaccError("Parse error in input. EOF")
 
     # *********** HEADER FIELDS *****************
     @_("")
